@@ -41,7 +41,7 @@ def gen(rng, tier):
     for _ in range(G.budget(60) if tier == 'quick' else 600):
         # narrow kernels (radius 0 / 1 / 2 around sigma = 0.125, 0.375, 0.625) and typed integer / boolean series
         kind = rng.choice(['gauss1', 'gauss2', 'rmean', 'rmean'])
-        dtype = rng.choice(['bool', 'int8', 'int8', 'uint8', 'int16', 'float32', 'list', 'int64'])
+        dtype = rng.choice(['bool', 'int8', 'int8', 'uint8', 'int16', 'float32', 'list', 'int64', 'float16', 'longdouble'])
         nr = rng.choice([2, 3, 7, 30, 90])
         nc = rng.randint(1, 4)
 
@@ -54,7 +54,7 @@ def gen(rng, tier):
                 return rng.randint(0, 255)
             if dtype == 'int16':
                 return rng.choice([rng.randint(-32768, 32767), rng.randint(30000, 32767)])
-            if dtype == 'float32':
+            if dtype in ('float32', 'float16', 'longdouble'):
                 return rng.randint(-2000, 2000) / 16.0
             return rng.randint(-50, 50)
         unit = rng.choice([None, None, 'tiny', 'offset', 'huge'])
@@ -68,7 +68,7 @@ def gen(rng, tier):
                 return v * 1e-11 if unit == 'tiny' else off * (1 + v * 2e-8) if unit == 'offset' else v * 1e12
             dtype = 'float64'
         sigma = rng.choice([0.05, 0.12, 0.125, 0.126, 0.13, 0.15, 0.19, 0.2, 0.22, 0.2499, 0.25, 0.26, 0.3, 0.374, 0.375, 0.4,
-                            0.62, 0.625, 0.63, 0.9, round(rng.uniform(0.05, 0.7), 4)])
+                            0.62, 0.625, 0.63, 0.9, 1.125, 1.625, 2.125, 2.625, 3.125, round(rng.uniform(0.05, 0.7), 4)])
         if kind == 'rmean' and dtype in ('int64', 'list') and rng.random() < 0.4:
             xs = [float(val()) for _ in range(nr)]
             for _k in range(rng.randint(1, 2)):
@@ -114,7 +114,7 @@ def impl(case):
         x = [list(r) if isinstance(r, list) else r for r in case['x']]
         before = [list(r) if isinstance(r, list) else r for r in x]
     else:
-        x = np.array(case['x'], dtype={None: float, 'bool': bool, 'float32': np.float32, 'float64': np.float64}.get(dt, dt))
+        x = np.array(case['x'], dtype={None: float, 'bool': bool, 'float32': np.float32, 'float64': np.float64, 'float16': np.float16, 'longdouble': np.longdouble}.get(dt, dt))
         before = x.copy()
     if case['k'].startswith('gauss'):
         r = mh.utils.filtering.gaussian_filter(x, case['sigma'])
